@@ -74,3 +74,130 @@ def block_contracts(state, cfg, doc):
     for q, kind, label, sl, el, silent in log:
         fails.append({"what": f"{q} {kind} {label} (startLine={sl}, endLine={el}, silent={silent})", "key": f"{q}/{kind}/{label}"})
     return {"sig": tok_sig(toks), "fail": fails}
+
+
+# ---------------------------------------------------------------------------- C11: Ruler histories
+def _ruler_ref_filter(rules, chain):
+    return [r.fn for r in rules if r.enabled and (chain == "" or chain in r.alt)]
+
+
+RULER_OPS = None
+
+
+def ruler_ops():
+    """operation alphabet of the bounded history check"""
+    global RULER_OPS
+    if RULER_OPS is None:
+        ops = []
+        for n in ("a", "b", "zz"):
+            for ign in (False, True):
+                ops.append(("enable", n, ign))
+                ops.append(("disable", n, ign))
+        for names in (["a", "zz"], ["zz", "b"], ["b", "a"], []):
+            for ign in (False, True):
+                ops.append(("enable", tuple(names), ign))
+                ops.append(("disable", tuple(names), ign))
+                ops.append(("enableOnly", tuple(names), ign))
+        ops += [("push", "c", ("x",)), ("push", "b", ()), ("before", "a", "d", ("y",)), ("before", "zz", "d", ()),
+                ("after", "b", "e", ("x", "y")), ("after", "zz", "e", ()), ("at", "a", ("y",)), ("at", "zz", ()),
+                ("getRules", ""), ("getRules", "x"), ("getRules", "nochain")]
+        RULER_OPS = ops
+    return RULER_OPS
+
+
+def ruler_history(state, cfg, doc):
+    """doc = tuple of op indices. Runs the history on a real Ruler and on a reference model; RI and the set
+    semantics are checked after every step (also after raising calls)."""
+    from markdown_it.ruler import Ruler
+
+    ops = ruler_ops()
+    r = Ruler()
+    fns = {}
+
+    def fn(name):
+        return fns.setdefault(name, (lambda *a, _n=name: _n))
+
+    r.push("a", fn("a0"), {"alt": ["x"]})
+    r.push("b", fn("b0"), {"alt": ["x", "y"]})
+    r.push("b", fn("b1"), {"alt": []})  # duplicate name
+    model = [["a", True, fn("a0"), ["x"]], ["b", True, fn("b0"), ["x", "y"]], ["b", True, fn("b1"), []]]
+    fails = []
+    trace = []
+
+    def find(name):
+        for i, m in enumerate(model):
+            if m[0] == name:
+                return i
+        return -1
+
+    for step, oi in enumerate(doc):
+        op = ops[oi]
+        trace.append(op)
+        kind = op[0]
+        exp_exc = None
+        try:
+            if kind in ("enable", "disable", "enableOnly"):
+                names, ign = op[1], op[2]
+                lst = [names] if isinstance(names, str) else list(names)
+                if kind == "enableOnly":
+                    for m in model:
+                        m[1] = False
+                found = []
+                for n in lst:
+                    i = find(n)
+                    if i < 0:
+                        if ign:
+                            continue
+                        exp_exc = KeyError
+                        break
+                    model[i][1] = kind != "disable"
+                    found.append(n)
+                got = getattr(r, kind)(list(names) if not isinstance(names, str) else names, ign)
+                if exp_exc is None and got != found:
+                    fails.append({"what": f"{kind} returned {got}, expected {found}", "key": "ruler/result"})
+            elif kind == "push":
+                model.append([op[1], True, fn(op[1] + "p"), list(op[2])])
+                r.push(op[1], fn(op[1] + "p"), {"alt": list(op[2])})
+            elif kind in ("before", "after"):
+                i = find(op[1])
+                if i < 0:
+                    exp_exc = KeyError
+                else:
+                    model.insert(i + (kind == "after"), [op[2], True, fn(op[2] + kind), list(op[3])])
+                getattr(r, kind)(op[1], op[2], fn(op[2] + kind), {"alt": list(op[3])})
+            elif kind == "at":
+                i = find(op[1])
+                if i < 0:
+                    exp_exc = KeyError
+                else:
+                    model[i][2], model[i][3] = fn(op[1] + "at"), list(op[2])
+                r.at(op[1], fn(op[1] + "at"), {"alt": list(op[2])})
+            elif kind == "getRules":
+                r.getRules(op[1])
+            if exp_exc is not None:
+                fails.append({"what": f"step {step} {op}: expected {exp_exc.__name__}, none raised", "key": "ruler/no-raise"})
+        except KeyError:
+            if exp_exc is not KeyError:
+                fails.append({"what": f"step {step} {op}: unexpected KeyError", "key": "ruler/unexpected-raise"})
+        # reported == model (set semantics)
+        rep = [(x.name, x.enabled, x.fn, list(x.alt)) for x in r.__rules__]
+        if rep != [tuple(m[:3]) + (m[3],) for m in model]:
+            fails.append({"what": f"after {trace}: rules {[(a, b) for a, b, _, _ in rep]} != model {[(m[0], m[1]) for m in model]}", "key": "ruler/set-semantics"})
+            break
+        if r.get_active_rules() != [m[0] for m in model if m[1]] or r.get_all_rules() != [m[0] for m in model]:
+            fails.append({"what": f"after {trace}: get_active_rules/get_all_rules disagree with the rule records", "key": "ruler/reported"})
+        # RI: a non-None cache agrees with Filter for every chain
+        cache = r.__cache__
+        if cache is not None:
+            for c in ("", "x", "y", "nochain"):
+                if (cache.get(c, []) or []) != _ruler_ref_filter(r.__rules__, c):
+                    fails.append({"what": f"after {trace}: stale cache for chain {c!r}", "key": "ruler/RI"})
+                    break
+        # applied == reported
+        for c in ("", "x", "y", "nochain"):
+            if r.getRules(c) != _ruler_ref_filter(r.__rules__, c):
+                fails.append({"what": f"after {trace}: getRules({c!r}) != enabled rules filtered by chain", "key": "ruler/applied"})
+                break
+        if fails:
+            break
+    return {"sig": tuple((m[0], m[1]) for m in model) + (cache is None,), "fail": [dict(f, input=[list(map(str, t)) for t in trace]) for f in fails]}
